@@ -5,8 +5,14 @@ double, int*, struct, void, object, bint} (legal combinations per the user guide
 legitimately, returns another value, raises ValueError, raises inside a nested Python call, raises inside a nested
 cdef call} x declaration/caller {cdef called from a Python def, cdef called through a second cdef function with the
 same specification, cdef called through a function-pointer typedef with the same specification, nogil cdef raising
-inside `with gil:` called from a `with nogil:` block, cpdef called from C, cpdef called from Python}.  Every generated
-function is executed.
+inside `with gil:` called from a `with nogil:` block, cpdef called from C, cpdef called from Python}.
+Additionally: return types {unsigned char, unsigned short, unsigned int, char, short, long long, size_t, Py_ssize_t, float}
+x sentinel {-1, 0, 255 (where representable)} x every specification x body {sentinel return, other value, raise} x caller
+{cdef from def, nogil, cpdef from Python} (narrow unsigned types: the error test must compare with the sentinel cast
+to the return type); and declaration/definition splits: a function or a cdef class method declared in the module's
+.pxd with GIL clause D and defined in the .pyx with clause F, (D, F) in {(nogil, with gil), (nogil, nogil), (with gil,
+with gil), (none, none)} x {except? -1, except -1, except *, implicit} x {int, void} x {sentinel return, raise} x
+{called from def, from a nogil block}.  Every generated function is executed (crash-isolated per program).
 Oracle: a rule table transcribed from the user guide section "Error return values" (docs/src/userguide/
 language_basics.rst): under every specification except `noexcept` a raised exception reaches the Python caller
 (ValueError); under `noexcept` the exception is reported exactly once through sys.unraisablehook (type ValueError), the
@@ -26,7 +32,9 @@ TECHNIQUE = ('exhaustive product (exception specification x return type x body x
 LEVEL_TEXT = ('The full product of exception specification {implicit, except V, except? V, except *, noexcept} x return type '
               '{int, double, int*, struct, void, object, bint} x body {legitimate sentinel return, other value, raise, raise in '
               'nested Python call, raise in nested cdef call} x declaration/caller {cdef from def, via second cdef, via function '
-              'pointer typedef, nogil + with gil from a nogil block, cpdef from C, cpdef from Python} is compiled and every '
+              'pointer typedef, nogil + with gil from a nogil block, cpdef from C, cpdef from Python}, plus 9 further numeric '
+              'return types x sentinels {-1, 0, 255} and .pxd-declaration/.pyx-definition splits with differing GIL clauses '
+              '(functions and cdef class methods), is compiled and every '
               'function executed; propagation vs unraisable reporting (sys.unraisablehook calls), returned value and a '
               'PyErr_Occurred() probe after the call must match the rule table transcribed from the user guide.')
 LEVEL_NOTE = ('`except +` (C++) is not covered (quick and thorough use the C build only); the value returned by a noexcept '
@@ -45,6 +53,32 @@ SENTINEL_PY = {'int': -1, 'double': -1.0, 'ptr': False, 'bint': True, 'struct': 
 OTHER = {'int': '5', 'double': '2.5', 'ptr': '&_cell', 'struct': '_mk(3)', 'void': '', 'object': "'obj'", 'bint': 'True'}
 OTHER_PY = {'int': 5, 'double': 2.5, 'ptr': True, 'struct': 3, 'void': None, 'object': 'obj', 'bint': True}
 DEFAULT_PY = {'int': 0, 'double': 0.0, 'ptr': False, 'struct': 'ANY', 'void': None, 'bint': False}
+
+# extra numeric return types x sentinel values: key '<type>/<sentinel>' (narrow unsigned types make `r == -1` differ from
+# `r == (T)-1` after integer promotion)
+NUMTYPES = {'uchar': ('unsigned char', 8, False), 'ushort': ('unsigned short', 16, False), 'uint': ('unsigned int', 32, False),
+            'char': ('char', 8, True), 'short': ('short', 16, True), 'longlong': ('long long', 64, True),
+            'size_t': ('size_t', 64, False), 'ssize_t': ('Py_ssize_t', 64, True), 'float': ('float', 0, True)}
+SENTINEL_RET = {}
+RTYPES_X = []
+for _b, (_ct, _bits, _signed) in NUMTYPES.items():
+    for _sent in (-1, 0, 255):
+        if _b == 'char' and _sent == 255:
+            continue                                   # not representable
+        _k = '%s/%d' % (_b, _sent)
+        RTYPES_X.append(_k)
+        CTYPE[_k] = _ct
+        if _b == 'float':
+            SENTINEL[_k] = '%d.0' % _sent
+            SENTINEL_PY[_k] = float(_sent)
+            OTHER[_k], OTHER_PY[_k], DEFAULT_PY[_k] = '2.5', 2.5, 0.0
+        else:
+            SENTINEL[_k] = str(_sent)
+            SENTINEL_PY[_k] = _sent if _signed else _sent % (1 << _bits)
+            OTHER[_k], OTHER_PY[_k], DEFAULT_PY[_k] = '5', 5, 0
+        SENTINEL_RET[_k] = repr(SENTINEL_PY[_k])
+CALLERS_X = ['cdef-py', 'cdef-nogil', 'cpdef-py']
+BODIES_X = ['ret_sentinel', 'ret_other', 'raise']
 
 PRELUDE = '''
 from cpython.exc cimport PyErr_Occurred
@@ -75,6 +109,12 @@ def spec_text(spec, rtype):
 
 
 def legal(spec, rtype, body, caller):
+    if '/' in rtype:
+        if caller not in CALLERS_X or body not in BODIES_X:
+            return False
+        if spec in ('none', 'star', 'noexcept') and not rtype.endswith('/-1'):
+            return False                       # the sentinel value only matters for except V / except? V
+        return not (body == 'ret_sentinel' and spec == 'exc')
     if rtype == 'object' and spec != 'none':
         return False
     if rtype in ('struct', 'void') and spec in ('exc', 'excq'):
@@ -97,7 +137,7 @@ def body_lines(rtype, body, nogil):
     ind = '        ' if nogil else '    '
     out = ['    with gil:'] if nogil else []
     if body == 'ret_sentinel':
-        v = {'struct': '_mk(0)', 'object': 'None'}.get(rtype) or SENTINEL[rtype]
+        v = {'struct': '_mk(0)', 'object': 'None'}.get(rtype) or SENTINEL_RET.get(rtype) or SENTINEL[rtype]
         if nogil:
             return ['    return %s' % v]
         return ['    return %s' % v]
@@ -168,6 +208,10 @@ def model(spec, rtype, body, caller):
 
 
 def _cgroup(caller):
+    if caller.startswith('pxd-'):
+        kind, gil, call = caller.split(':')
+        decl, defn = gil.split('>')
+        return 'pxd-split' if decl != defn else 'pxd-agree'
     return caller if caller in ('cdef-nogil', 'cpdef-py') else 'c-caller'
 
 
@@ -181,7 +225,56 @@ def all_cases():
                     if legal(spec, rtype, body, caller):
                         out.append((k, spec, rtype, body, caller))
                         k += 1
+    for spec in SPECS:
+        for rtype in RTYPES_X:
+            for body in BODIES_X:
+                for caller in CALLERS_X:
+                    if legal(spec, rtype, body, caller):
+                        out.append((k, spec, rtype, body, caller))
+                        k += 1
     return out
+
+
+# ---- declaration / definition split: declared in the module's .pxd (function or cdef class method) with one GIL clause,
+#      defined in the .pyx with another one; the exception specification must survive the merge of the two types
+PXD_GIL = [('nogil', 'with gil'), ('nogil', 'nogil'), ('with gil', 'with gil'), ('', '')]
+
+
+def pxd_cases(k0):
+    out = []
+    k = k0
+    for kind in ('func', 'meth'):
+        for decl, defn in PXD_GIL:
+            for spec, rtype in [('excq', 'int'), ('exc', 'int'), ('star', 'int'), ('none', 'int'), ('star', 'void'), ('none', 'void')]:
+                for body in ('ret_sentinel', 'raise'):
+                    if body == 'ret_sentinel' and (spec == 'exc' or rtype == 'void'):
+                        continue
+                    for call in (['def', 'nogil-block'] if decl else ['def']):
+                        out.append((k, spec, rtype, body, 'pxd-%s:%s>%s:%s' % (kind, decl or '-', defn or '-', call)))
+                        k += 1
+    return out
+
+
+def pxd_program(k, spec, rtype, body, caller):
+    """-> (pyx source, pxd source, name of the Python-visible caller)"""
+    kind, gil, call = caller.split(':')
+    decl, defn = [x if x != '-' else '' for x in gil.split('>')]
+    ct, st = CTYPE[rtype], spec_text(spec, rtype)
+    blk = defn == 'nogil'                       # body runs without the GIL: raise inside `with gil:`
+    lines = body_lines(rtype, body, blk)
+    if kind == 'pxd-func':
+        pxd = ['cdef %s f%d()%s%s' % (ct, k, st, ' ' + decl if decl else '')]
+        src = ['cdef %s f%d()%s%s:' % (ct, k, st, ' ' + defn if defn else '')] + lines
+        callexpr = 'f%d()' % k
+        pre = []
+    else:
+        pxd = ['cdef class K%d:' % k, '    cdef %s m(self)%s%s' % (ct, st, ' ' + decl if decl else '')]
+        src = ['cdef class K%d:' % k, '    cdef %s m(self)%s%s:' % (ct, st, ' ' + defn if defn else '')] + ['    ' + l for l in lines]
+        callexpr = 'o.m()'
+        pre = ['    cdef K%d o = K%d()' % (k, k)]
+    conv = conv_lines(rtype, callexpr, call == 'nogil-block')
+    src += ['def call%d():' % k] + pre + conv
+    return '\n'.join(src) + '\n', '\n'.join(pxd) + '\n', 'call%d' % k
 
 
 # ------------------------------------------------------------------------------------------ child side
@@ -232,6 +325,8 @@ def sweep(cns, rns, work, cfg):
             d = 'unraisable:%d->%d' % (len(exp_unr), len(seen))
         elif got[0] == 'ok' and got[1][1]:
             d = 'error-pending'
+        elif got[0] == 'exc' and exp[0] == 'exc':
+            d = 'exc-type:%s->%s' % (exp[1], got[1])
         else:
             d = 'value'
         key = 'c32|%s|%s|%s|%s|%s' % (spec, 'void' if rtype == 'void' else ('object' if rtype == 'object' else 'ctype'),
@@ -254,6 +349,21 @@ def run(ctx):
         units.append(drive.Unit(src, '', [(fname, spec, rtype, body, caller)]))
     per = 60
     mods = [drive.make_mod('c32_%d' % (i // per), PRELUDE, '', units[i:i + per]) for i in range(0, len(units), per)]
+    # declaration/definition split programs: one module with an accompanying .pxd (crash-isolated per program by the driver)
+    pcases = pxd_cases(len(cases))
+    punits, pxd_text = [], ['cdef struct S:', '    int a', '    int b']
+    for k, spec, rtype, body, caller in pcases:
+        src, pxd, fname = pxd_program(k, spec, rtype, body, caller)
+        punits.append(drive.Unit(src, '', [(fname, spec, rtype, body, caller)]))
+        pxd_text.append(pxd)
+    pprelude = PRELUDE.replace('cdef struct S:\n    int a\n    int b\n', '')
+    pper = 80
+    for i in range(0, len(punits), pper):
+        name = 'c32pxd_%d' % (i // pper)
+        chunk = punits[i:i + pper]
+        ptxt = '\n'.join(pxd_text[:3] + [x for u, x in zip(punits, pxd_text[3:]) if u in chunk]) + '\n'
+        mods.append(drive.make_mod(name, pprelude, '', chunk, extra_files={name + '.pxd': ptxt}))
+    units = units + punits
     ctx.log('%d programs in %d modules' % (len(units), len(mods)))
     st = drive.run(ctx, mods, 'props.C32_except_decl:sweep', 'c32', reach=REACH,
                    crash_tag=lambda w: '%s|%s|%s|%s' % (w[1], 'void' if w[2] == 'void' else ('object' if w[2] == 'object' else 'ctype'),
